@@ -434,6 +434,11 @@ def routes(ctx, co, adt, short):
             calls = [t["call"] for x in fam for _, t in x.calls()]
             via = [f for f in calls if (f["def"] == "core::str::traits::FromStr::from_str" and ty_adt(f["substs"][0]) == adt)
                    or (f["name"] == "parse" and any(ty_adt(x) == adt for x in f["substs"])) or (f.get("local") and f["name"] == "new" and ty_adt(f.get("self_ty")) == adt)]
+            if tr_name.endswith("::Deserialize"):
+                inner_reads = [tystr(t["call"]["substs"][0]) for x in fam for _, t in x.calls() if t["call"]["def"] == "serde_core::de::Deserialize::deserialize" and t["call"].get("substs")]
+                borrowed = [x_ for x_ in inner_reads if x_.startswith("&")]
+                ctx.check(not borrowed, "R16.4", b.loc(), f"{short}|Deserialize|owned-text", f"{b.id}: reads the text as {borrowed}: a borrowed &str can only be produced from unescaped, in-memory input — the same valid string is then refused when it comes from a reader or contains a JSON escape, although parsing and PLAIN decoding accept it",
+                          instance=f"{short}: Deserialize reads an owned string", nontrivial=False)
             ctx.check(bool(makes) or bool(via), "R16.4", b.loc(), f"{short}|{tr_name}|route",
                       f"{b.id} neither constructs (guarded, see R16.1) nor delegates to FromStr/new", instance=f"{short}: {tr_name.split('::')[-1]} -> {'guarded site' if makes else 'FromStr/new'}")
             if tr_name.endswith("FromPlain") and not makes:
